@@ -411,7 +411,7 @@ def _stringifies(t: T, x: T) -> bool:
 def _null_guard(pc, x: T) -> bool:
     """Is some literal of the path condition a (positive) non-null test of x?  Decided semantically first: with x null the
     path is infeasible (covers `not (isnull(c) or isnull(x))`, guard clauses, De Morgan forms)."""
-    if any(_eval_nulls(c, {x: False}) is False for c in pc):
+    if any(_eval_nulls(c, {x: False}, nan_only=True) is False for c in pc):
         return True
     for c in pc_literals(pc):
         pos = True
@@ -429,13 +429,14 @@ def _null_guard(pc, x: T) -> bool:
     return False
 
 
-def _eval_nulls(c: T, env: dict):
-    """Truth value of a path literal when the values in env are known to be non-null (True) / null (False); None = unknown."""
+def _eval_nulls(c: T, env: dict, nan_only=False):
+    """Truth value of a path literal when the values in env are known to be non-null (True) / null (False); None = unknown.
+    nan_only: the null value is NaN (the result of Series.where), for which `x is None` says nothing."""
     if c.op == "not":
-        v = _eval_nulls(c.args[0], env)
+        v = _eval_nulls(c.args[0], env, nan_only)
         return None if v is None else not v
     if c.op in ("and", "or"):
-        vs = [_eval_nulls(x, env) for x in c.args[0]]
+        vs = [_eval_nulls(x, env, nan_only) for x in c.args[0]]
         if c.op == "and":
             return False if any(v is False for v in vs) else (True if all(v is True for v in vs) else None)
         return True if any(v is True for v in vs) else (False if all(v is False for v in vs) else None)
@@ -445,7 +446,7 @@ def _eval_nulls(c: T, env: dict):
             return env[c.args[1][0]]
         if n in ("pandas.isnull", "pandas.isna", "numpy.isnan", "math.isnan"):
             return not env[c.args[1][0]]
-    if c.op == "cmp" and c.args[0] in ("is", "is not") and NONE in (c.args[1], c.args[2]):
+    if c.op == "cmp" and c.args[0] in ("is", "is not") and NONE in (c.args[1], c.args[2]) and not nan_only:
         x = c.args[1] if c.args[2] is NONE else c.args[2]
         if x in env:
             return (not env[x]) if c.args[0] == "is" else env[x]
